@@ -9,7 +9,7 @@
         exc  [t]             an exception left datagram_received or a timer callback
         end  [t]
    D.kinds[d] = [kind, tc, qu].  Clauses: C16_DuplicateEffect, C12_TrainAssembly, C12_HoldWindow, C15_EmptyAssembly,
-   C15_NoException, C06_ResponseHandedOn (see Listener.tla).                                                               *)
+   C15_NoException, C15_QueryHandedOn, C06_ResponseHandedOn (see Listener.tla).  D.own names the property whose check runs this.                                                               *)
 EXTENDS Integers, Sequences, FiniteSets, Json, IOUtils, TLC, TLCExt, ListenerContract
 
 ASSUME TLCSet(42, JsonDeserialize(IOEnv.TRACE_FILE))
@@ -26,7 +26,9 @@ InitState == [gm |-> CNoMem, train |-> [a \in AddrSet |-> <<>>], tnew |-> [a \in
               expect |-> <<>>, dup |-> FALSE, last |-> -1, err |-> ""]
 
 Overdue(st, t) == \E a \in AddrSet : st.train[a] # <<>> /\ t > st.tany[a] + 500
-HeadClause(st) == IF st.expect[1].k = "call" THEN "C12_TrainAssembly" ELSE "C06_ResponseHandedOn"
+\* a plain query (no train involved) that is not handed on at all is the instance no longer answering a well-formed query: C15
+HeadClause(st) == IF st.expect[1].k = "call" THEN (IF Len(st.expect[1].pk) = 1 /\ D.own = "C15" THEN "C15_QueryHandedOn" ELSE "C12_TrainAssembly")
+                  ELSE "C06_ResponseHandedOn"
 
 Step(st, e) ==
   CASE e.ev = "rx" ->
